@@ -1072,6 +1072,56 @@ def replay_narrow(ctx, c):
                       impl=[v.hex() for v in out if not (lo <= v < hi)][:5], predicate='lo <= ra < hi')
 
 
+def seasonal_probe(ctx):
+    """I3SeasonalVariationTimeScramblingMethod(data) on unsorted times with duplicates and events exactly on run
+    edges: stored data unchanged by the construction, run weights = fraction of events in [start, stop); the masks of
+    the model (kernel seas_mask on order-preserving bit patterns) against numpy"""
+    from skyllh.core.dataset import DatasetData
+    from skyllh.i3.dataset import I3DatasetData
+    from skyllh.i3.scrambling import I3SeasonalVariationTimeScramblingMethod
+    from skyllh.core.storage import DataFieldRecordArray as DFRA
+    exprs, impl, cases = [], [], []
+    for n in (1, 2, 5, 9):
+        for variant in range(3):
+            r = np.random.RandomState(100 * n + variant)
+            edges = np.sort(58000 + np.round(r.uniform(0, 8, 4) * 8) / 8)
+            edges[1] = max(edges[1], edges[0] + 0.125)
+            edges[2] = max(edges[2], edges[1] + 0.125)
+            edges[3] = max(edges[3], edges[2] + 0.125)
+            t = 58000 + np.round(r.uniform(0, 8, n) * 8) / 8
+            t[0] = edges[1]                                  # exactly on a start / stop edge
+            if n >= 2:
+                t[-1] = t[0]                                 # duplicate
+            if n >= 5:
+                t[2] = edges[3]                              # exactly on the last stop (outside)
+                t = t[r.permutation(n)]                      # not in time order
+            if not np.any((t >= edges[0]) & (t < edges[3])):
+                continue
+            exp = DFRA({'time': t.copy(), 'azi': r.uniform(0, 6, n), 'ra': r.uniform(0, 6, n).astype(np.float32),
+                        'user_q': np.arange(n, dtype=np.int16)}, copy=False)
+            grl = DFRA({'start': edges[:-1].copy(), 'stop': edges[1:].copy()}, copy=False)
+            data = I3DatasetData(DatasetData(data_exp=exp, data_mc=exp.copy(), livetime=1.), grl)
+            before = (table_bytes(data.exp), table_bytes(data.mc), table_bytes(data.grl))
+            case = {'kind': 'seasonal', 'times': [float(x).hex() for x in t], 'edges': [float(x).hex() for x in edges]}
+            ctx.case(case)
+            ctx.count('seasonal-probe')
+            m = I3SeasonalVariationTimeScramblingMethod(data)
+            if (table_bytes(data.exp), table_bytes(data.mc), table_bytes(data.grl)) != before:
+                ctx.violation('construct:scrambling-method:seasonal', 'dataset-array-changed',
+                              'stored data changed by constructing I3SeasonalVariationTimeScramblingMethod', case=case,
+                              predicate='bytes, dtypes, field list and order of exp/mc/grl unchanged')
+            masks = [((t >= a) & (t < b)).tolist() for a, b in zip(edges[:-1], edges[1:])]
+            cnt = np.array([sum(x) for x in masks], dtype=np.float64)
+            if not np.allclose(m.run_weights, cnt / cnt.sum(), rtol=1e-12, atol=0):
+                ctx.violation('construct:scrambling-method:seasonal', 'wrong-run-weights', 'run weights', case=case,
+                              impl=m.run_weights.tolist(), model=(cnt / cnt.sum()).tolist())
+            runs = '[' + '; '.join(f'({fbits(a)}, {fbits(b)})' for a, b in zip(edges[:-1], edges[1:])) + ']'
+            exprs.append(f'seasonal_masks {runs} {zl([fbits(x) for x in t])}')
+            impl.append(masks)
+            cases.append(case)
+    return exprs, impl, cases
+
+
 # ---------------------------------------------------------------------------- entry points
 def run_sessions(ctx, sessions, tag):
     install_spies()
@@ -1119,8 +1169,19 @@ def run(ctx):
                     ctx.disagree('alias.ura_value', c, a, list(v), detail='narrowed/clipped right ascensions differ')
         except RuntimeError as ex:
             ctx.broken.append({'kind': 'model-eval', 'error': str(ex)[:1500]})
+    # 1b. construction of the seasonal scrambling method
+    exprs, impl, cases = seasonal_probe(ctx)
+    if ctx.model_ok:
+        try:
+            vals = common.coq_eval('c07p', IMPORTS, exprs)
+            for c, a, v in zip(cases, impl, vals):
+                ctx.corr_cases += 1
+                if [list(x) for x in v] != a:
+                    ctx.disagree('alias.seasonal_masks', c, a, [list(x) for x in v], detail='run masks differ')
+        except RuntimeError as ex:
+            ctx.broken.append({'kind': 'model-eval', 'error': str(ex)[:1500]})
     # 2. sessions
-    n = ctx.budget(28, 360)
+    n = ctx.budget(20, 360)
     sessions = corpus_sessions()
     i = 0
     while len(sessions) < n:
@@ -1135,6 +1196,8 @@ def replay(ctx, rp):
     c = rp.get('case') or {}
     if c.get('kind') == 'narrowing':
         return replay_narrow(ctx, c)
+    if c.get('kind') == 'seasonal':
+        return seasonal_probe(ctx)
     if 'calls' in c and 'cfg' in c:
         s = {'cfg': c['cfg'], 'calls': c['calls'], 'mean_sig': c.get('mean_sig', 3)}
         for d in s['cfg']['ds']:
